@@ -13,7 +13,7 @@ class Unsupported(Exception):
 
 
 class Fn:
-    __slots__ = ('name', 'kind', 'sig', 'locals', 'blocks', 'argtypes', 'rettype', 'nargs', 'raw', 'src')
+    __slots__ = ('name', 'kind', 'sig', 'locals', 'blocks', 'argtypes', 'rettype', 'nargs', 'raw', 'src', 'debug')
 
     def __init__(self, name, kind):
         self.name = name
@@ -24,6 +24,7 @@ class Fn:
         self.rettype = None
         self.nargs = 0
         self.raw = {}
+        self.debug = {}
 
 
 _CHAR_RE = re.compile(r"'(\\u\{[0-9a-fA-F]+\}|\\.|[^\\'])'")
@@ -331,7 +332,12 @@ def _parse_body(f, body):
     cur = None
     for l in body:
         s = l.strip()
-        if not s or s.startswith('debug ') or s.startswith('scope ') or s == '}' or s.startswith('//'):
+        if s.startswith('debug '):
+            m = re.match(r'debug (\w+) => _(\d+);', s)
+            if m:
+                f.debug.setdefault(m.group(1), int(m.group(2)))
+            continue
+        if not s or s.startswith('scope ') or s == '}' or s.startswith('//'):
             if s == '}' and cur is not None and l.startswith('    }') and not l.startswith('     '):
                 cur = None
             continue
